@@ -7,7 +7,7 @@
                     pvf_close does nothing); the write session is `Sf.Small2.run (fmt c)`
   * `scanInt`       one "%d" conversion of sscanf
   * `parse`         sf_open (SFM_READ): guess_file_type (which reads 12 bytes into the header cache), pvf_read_header
-                    ("pmj", the line read `header_gets`, sscanf, `psf->dataoffset = psf_ftell (psf)`), pcm_init,
+                    ("pmj", the line read `header_gets`, sscanf, `psf->dataoffset = psf->header.indx`), pcm_init,
                     validate_sfinfo
 -/
 import SfModel.Small2
@@ -74,8 +74,14 @@ def getLine : Nat → List Byte → List Byte × Nat
   | fuel + 1, [] => let (l, n) := getLine fuel []; (0 :: l, n + 1)
   | fuel + 1, b :: r => if b = 0x0A then ([], 1) else let (l, n) := getLine fuel r; (b :: l, n + 1)
 
+/-- `psf->dataoffset` after the header line has been read (`n` characters consumed behind "PVF1\n", file of `flen` ≥ 12
+    bytes).  `fx = true`: `psf->header.indx`, the end of the header text.  `fx = false`, before the repair of
+    KF-PVF-SHORT-HEADER: `psf_ftell (psf)` — 12 bytes are in the cache already when the type detection returns, the line
+    read fetches single bytes beyond them. -/
+def dataOffset (fx : Bool) (flen n : Nat) : Nat := if fx then min flen (5 + n) else max 12 (min flen (5 + n))
+
 /-- pvf_read_header + pcm_init + validate_sfinfo on a file of at least 12 bytes that `guess_file_type` called PVF -/
-def readHeader (bs : List Byte) : ParseRes :=
+def readHeaderWith (fx : Bool) (bs : List Byte) : ParseRes :=
   let (l, n) := getLine 31 (bs.drop 5)
   let text := l.takeWhile (· ≠ 0)                     -- sscanf stops at the first NUL
   match scanInt text with
@@ -91,17 +97,23 @@ def readHeader (bs : List Byte) : ParseRes :=
       then .unmodelled else                            -- conversion overflow
     if bits ≠ 8 ∧ bits ≠ 16 ∧ bits ≠ 32 then .err else -- SFE_PVF_BAD_BITWIDTH
     let bw : Int := bits / 8
-    -- psf_ftell: 12 bytes are in the cache already; the line read fetches single bytes beyond them
-    let dataoffset : Nat := max 12 (min bs.length (5 + n))
+    let dataoffset : Nat := dataOffset fx bs.length n
     if ch < 1 ∨ ch > 1024 ∨ sr < 1 then .err else      -- pcm_init (channels = 0), validate_sfinfo
     .ok { ch := ch.toNat, fmt := 0x0E0000 + (if bits = 8 then 1 else if bits = 16 then 2 else 4), sr := sr.toNat,
           frames := (framesOf bs.length dataoffset 0 (bw * ch)).toNat }
 
+def readHeader (bs : List Byte) : ParseRes := readHeaderWith true bs
+
 /-- `sf_open_virtual (SFM_READ)` on `bs` -/
-def parse (bs : List Byte) : ParseRes :=
+def parseWith (fx : Bool) (bs : List Byte) : ParseRes :=
   if bs.length < 12 then .err else                    -- guess_file_type: SFE_BAD_FILE_READ
   match guess bs with
-  | some (.fmt 0x0E0000) => readHeader bs
+  | some (.fmt 0x0E0000) => readHeaderWith fx bs
   | _ => .unmodelled
+
+def parse (bs : List Byte) : ParseRes := parseWith true bs
+
+/-- the reader before the repair of KF-PVF-SHORT-HEADER -/
+def parseOld (bs : List Byte) : ParseRes := parseWith false bs
 
 end Sf.Pvf
